@@ -221,15 +221,15 @@ A check that is right was never loosened; these were errors of the machinery and
 Each change was produced by a sub-agent that saw only the property text, compiles, passes the crate's test
 suite, and was confirmed here in a scratch worktree (`tools/confirm_seed*.sh`: tests pass with the change, the
 demonstration fails with it and passes without). `tools/seedtest.sh <patch> Cxx` applies it to /repo, runs the
-check, and reverts. Four rounds were run (m1/m2; then m3/m4, m5/m6 and - for twelve properties - m7/m8 by agents that
-were also told what had already been found, so that they would look elsewhere): 144 changes;
+check, and reverts. Four rounds were run (m1/m2; then m3/m4, m5/m6 and m7/m8 by agents that were also told what had
+already been found, so that they would look elsewhere): 160 changes;
 `tools/seedregress.sh` re-runs recorded seeds against the current checks (`seeded/<id>/check.json`; a full run
 takes about five hours, so the later rounds carry the verdict of the run that closed them): all are caught except
 C12-m2, which no longer breaks the property since a later repair of /repo and is rightly not reported. The first
-version of the checks missed 6 of the first 40, 19 of the second 40, 14 of the third 40 and 16 of the fourth 24
+version of the checks missed 6 of the first 40, 19 of the second 40, 14 of the third 40 and 21 of the fourth 40
 (later agents dig where earlier ones had not); every miss led to a stronger generator or oracle (marked
 *strengthened* / "closed by"), never to a special case for the seed, and several of those strengthenings - and
-the agents' side remarks - exposed genuine defects of the unchanged code (D50..D55, D58..D64). Seeds reported
+the agents' side remarks - exposed genuine defects of the unchanged code (D50..D55, D58..D64, D67). Seeds reported
 *without a failing input* (the model or a proof obligation stops matching, no oracle fires) are marked so: for
 those the replay names the correspondence that no longer checks.
 '''
@@ -253,8 +253,8 @@ def section9():
                "'Explored by the tie ... ALSO' in section 6.\n")
     out.append("\n*Round 3, missed at first:* C01-m6, C03-m6, C04-m6, C08-m6, C10-m5, C10-m6, C13-m5, C14-m5, C14-m6, C15-m5, "
                "C15-m6, C19-m6, C20-m5, C20-m6 (what closed each is in its row).\n")
-    out.append("\n*Round 4 (12 properties), missed at first:* C01-m7, C01-m8, C03-m8, C05-m8, C08-m7, C08-m8, C10-m7, C13-m7, C14-m7, "
-               "C15-m7, C15-m8, C17-m7, C17-m8, C19-m7, C19-m8, C20-m8 (what closed each is in its row).\n")
+    out.append("\n*Round 4, missed at first:* C01-m7, C01-m8, C02-m7, C02-m8, C03-m8, C04-m8, C05-m8, C08-m7, C08-m8, C09-m8, C10-m7, "
+               "C12-m7, C13-m7, C14-m7, C15-m7, C15-m8, C17-m7, C17-m8, C19-m7, C19-m8, C20-m8 (what closed each is in its row).\n")
     out.append("\n*Strengthened after a miss:* C01-m1 (store-raw boundary units added to the generator), C07-m1 (sources with "
                "external / partial listfiles), C08-m2 (digest-field cases), C12-m2 (dirty compaction variant), C20-m2 (BLP "
                "sub-commands), C11 (separate edge archive). C19-m2 is a lock-order inversion whose demonstration is "
